@@ -14,6 +14,8 @@ pub enum Hint {
     /// an honest inexact hint whose upper bound is attained: `(0, Some(elements left))`
     Upper,
     Unbounded,
+    /// ill-formed: the lower bound exceeds the upper one, `(left + 2, Some(left))` (std: "a buggy iterator may yield … it is not an error")
+    Inverted,
     /// inexact; a call of `size_hint` by a thread of the case (the crate makes none) panics once every element was produced
     PanicEnd,
     /// claims `(k - produced, Some(k - produced))` whatever the script holds (a dishonest exact hint)
@@ -234,6 +236,7 @@ fn parse_src(toks: &[&str], ln: usize) -> Result<(Src, usize), String> {
             "upper" => Ok(Hint::Upper),
             "unbounded" => Ok(Hint::Unbounded),
             "panicend" => Ok(Hint::PanicEnd),
+            "inverted" => Ok(Hint::Inverted),
             h if h.starts_with("fixed") => h[5..]
                 .parse::<usize>()
                 .map(Hint::Fixed)
@@ -572,8 +575,8 @@ pub fn parse_cases(text: &str) -> Result<Vec<Case>, String> {
                     .get(1)
                     .ok_or_else(|| format!("line {ln}: fat <bytes>"))?;
                 p.fat = num::<usize>(k, "fat", ln)?;
-                if p.fat != 128 && p.fat != 65536 {
-                    return Err(format!("line {ln}: fat 128 | fat 65536"));
+                if p.fat != 128 && p.fat != 2048 && p.fat != 65536 {
+                    return Err(format!("line {ln}: fat 128 | fat 2048 | fat 65536"));
                 }
             }
             "nested" => {
